@@ -64,7 +64,7 @@ impl Kind {
                     if let Some(array) = self.as_array_mut() {
                         let mut index = *index;
                         if index < 0 {
-                            let negative_index = (-index) as usize;
+                            let negative_index = index.unsigned_abs();
 
                             if array.unknown_kind().contains_any_defined() {
                                 let original = array.clone();
@@ -72,7 +72,7 @@ impl Kind {
 
                                 let min_index = array
                                     .largest_known_index()
-                                    .map_or(0, |x| x + 1 - negative_index);
+                                    .map_or(0, |x| (x + 1).saturating_sub(negative_index));
 
                                 if let Some(largest_known_index) = array.largest_known_index() {
                                     for i in min_index..=largest_known_index {
